@@ -18,14 +18,16 @@ Next == ph = 0 /\ ph' = 1 /\ i' = i
 Judged == ph = 0 \/
   LET o == Obs[i]  inst == [Insts[i] EXCEPT !.args = o.args]  id == inst.id
       starts == Starts(inst)
-      from == [j \in 1..Len(starts) |-> RowsFrom(inst, starts[j])]
+      \* `<<>> \o f` forces TLC to evaluate the function once (a lazily evaluated [x \in S |-> e] is re-evaluated at every application)
+      from == <<>> \o [j \in 1..Len(starts) |-> RowsFrom(inst, starts[j])]
       Cands(r) == {j \in 1..Len(starts) : \E x \in 1..Len(from[j]) : RowEq(from[j][x], r)}
-      J(r) == LET c == Cands(r) IN IF c = {} THEN 0 ELSE CHOOSE j \in c : \A j2 \in c : j2 <= j
-      late == {k \in 1..Len(o.rows) : J(o.rows[k]) > 0 /\ o.pulls[k] > J(o.rows[k])}
-      unknown == {k \in 1..Len(o.rows) : J(o.rows[k]) = 0}
+      JOf(r) == LET c == Cands(r) IN IF c = {} THEN 0 ELSE CHOOSE j \in c : \A j2 \in c : j2 <= j
+      Js == <<>> \o [k \in 1..Len(o.rows) |-> JOf(o.rows[k])]
+      late == {k \in 1..Len(o.rows) : Js[k] > 0 /\ o.pulls[k] > Js[k]}
+      unknown == {k \in 1..Len(o.rows) : Js[k] = 0}
       baddrop == {d \in 1..Len(o.drops) : o.drops[d][2] # o.drops[d][3]}
   IN /\ IF o.before[1] # 0 \/ o.before[2] # 0 THEN PrintT(<<"VERDICT", id, "C03.eager", ToJson(o.before)>>) ELSE TRUE
-     /\ IF late # {} THEN LET k == CHOOSE k \in late : TRUE IN PrintT(<<"VERDICT", id, "C03.late", ToJson([row |-> k, pulled |-> o.pulls[k], allowed |-> J(o.rows[k]), n |-> Cardinality(late)])>>) ELSE TRUE
+     /\ IF late # {} THEN LET k == CHOOSE k \in late : TRUE IN PrintT(<<"VERDICT", id, "C03.late", ToJson([row |-> k, pulled |-> o.pulls[k], allowed |-> Js[k], n |-> Cardinality(late)])>>) ELSE TRUE
      /\ IF baddrop # {} THEN LET d == CHOOSE d \in baddrop : TRUE IN PrintT(<<"VERDICT", id, "C03.afterdrop", ToJson(o.drops[d])>>) ELSE TRUE
      /\ PrintT(<<"VERDICT", id, "lazy.done", ToJson([rows |-> Len(o.rows), unexplained |-> Cardinality(unknown), starts |-> Len(starts)])>>)
 =============================================================================
